@@ -219,13 +219,51 @@ def _groupfill(prog, sub, cfg):
     if not agg_blocks:
         return
     try:
-        pres = Enumerator(f, summaries=False, max_visits=2, max_paths=60000).run()
+        pres = Enumerator(f, summaries=False, max_visits=2, max_paths=60000, track_cmp=True).run()
     except TooManyPaths:
         sub.anchor(False, "partition_nodes_into_groups: too many paths", cfg)
         return
     nexts = [b for b, t in f.calls() if callee(t).endswith("Iterator>::next") or callee(t).endswith("Iterator::next")]
     n = 0
     bad = False
+    lacking = set()
+
+    def deep(o, depth=0, seen=None):
+        seen = set() if seen is None else seen
+        out = set()
+        if depth > 10 or o is None or is_const(o):
+            return out
+        for r in provenance(f, o, through=None):
+            if r[0] == "call" and r[2] not in seen:
+                seen.add(r[2])
+                out.add(r[1])
+                tt = f.blocks[r[2]]["term"]
+                if tt["args"]:
+                    out |= deep(tt["args"][0], depth + 1, seen)
+        return out
+
+    def exactly_one(getter, calls1, hist1):
+        """evidence on this iteration that `node.<getter>()` holds exactly one element: `len() == 1`, or an iterator over it
+        that answered Some and then None"""
+        for k, v in hist1:
+            if k != "cmp":
+                continue
+            op, a, b, outcome = v
+            if not ((op == "Eq" and outcome) or (op == "Ne" and not outcome)):
+                continue
+            for x, y in ((a, b), (b, a)):
+                if is_const(y) and str(y.get("v")) in ("1", "1_usize") and not is_const(x):
+                    cs = deep(x)
+                    if any(c.endswith("::" + getter) for c in cs) and any(c.endswith("::len") for c in cs):
+                        return True
+        answers = []
+        hd = {}
+        for k, v in hist1:
+            hd.setdefault(k, []).append(v)
+        for b_, c_, t_ in calls1:
+            if b_ in nexts and t_["args"] and any(c.endswith("::" + getter) for c in deep(t_["args"][0])):
+                answers += [v for v in hd.get(f"call:{b_}", []) if v in ("Some", "None")]
+        return "Some" in answers and "None" in answers[answers.index("Some"):]
     for st in pres:
         head = next((b for b, c, t in st.calls if b in nexts), None)
         if head is None:
@@ -236,6 +274,15 @@ def _groupfill(prog, sub, cfg):
         n += 1
         if not any(v == "LocalAssignment" for k, v in hist1):
             bad = True
+        for getter in ("names", "expressions"):
+            if not exactly_one(getter, calls1, hist1):
+                lacking.add(getter)
+    sub.inst(f"{f.key} group members bind exactly one name to exactly one expression", {"paths": n}, cfg, ok=not lacking)
+    for getter in sorted(lacking):
+        sub.violation(f"{f.key} group-member-count-unchecked {getter}",
+                      f"a statement is put into a requires group on a path that never establishes that its `{getter}()` list holds "
+                      f"exactly one element: `local a, b = require(\"x\")` (or `local a = require(\"x\"), y`) becomes a group member "
+                      f"keyed by its first name - it no longer closes the group and is moved by the sort", f.loc(), cfg)
     s0 = list(agg_blocks.values())[0]
     sub.inst(f"{f.key} RequiresGroup-construct", {"fn": f.key, "at": f.loc(s0["sp"]), "paths": n}, cfg, ok=not bad and n > 0)
     if bad or n == 0:
